@@ -65,8 +65,9 @@ static void gen_steps(unit *u)
             op = OP_YIELD;
         if (op == OP_SUSPEND && !u->named)
             op = OP_YIELD; /* the resumer needs a handle that stays valid */
-        if (u->pool == shared_pool && u->kind == AK_ULT && op != OP_YIELD && op != OP_STATE && op != OP_EXIT)
-            op = OP_YIELD; /* blocked units of a pool with several consumers do not keep any stream alive: keep them simple */
+        if (u->pool == shared_pool && u->kind == AK_ULT && op != OP_YIELD && op != OP_STATE && op != OP_EXIT && op != OP_CHILD)
+            op = OP_YIELD; /* blocked units of a pool with several consumers do not keep any stream alive: keep them simple
+                            * (children of theirs are unnamed: nobody blocks joining them) */
         if (op == OP_MIGRATE)
             u->moves = 1;
         u->steps[i] = op;
@@ -84,7 +85,11 @@ static int new_unit(int parent, int allow_task)
     int k = sc_rnd(10);
     u->kind = (allow_task && k < 2) ? AK_TASK : AK_ULT;
     u->named = (parent < 0) ? 1 : (sc_rnd(3) != 0); /* children may be unnamed: nobody joins them */
-    if (topo == 0 || parent < 0 || parent == 99)
+    if (parent >= 0 && parent < MAXU && shared_pool >= 0 && U[parent].pool == shared_pool)
+        u->named = 0;
+    if (parent < 0 && shared_pool >= 0 && sc_rnd(2))
+        u->pool = shared_pool; /* populate the pool that the RANDWS scheduler steals from (pops at the other end) */
+    else if (topo == 0 || parent < 0 || parent == 99)
         u->pool = sc_rnd(npools);
     else
         u->pool = sc_rnd(3) ? U[parent].pool : 0; /* early stream join: only into a pool whose stream is certainly alive */
@@ -724,7 +729,27 @@ int main(int argc, char **argv)
         if (t < 0)
             break;
         tops[nt++] = t;
+        int any_migrate = (nes >= 2 && U[t].kind == AK_ULT && U[t].pool >= 1 && U[t].pool < nes && sc_rnd(4) == 0);
+        if (any_migrate) {
+            /* ABT_thread_migrate: the runtime picks another running stream (at least the primary one exists); asked
+             * right after the creation, often before the unit has ever run */
+            for (int k = 0; k < U[t].nsteps; k++)
+                if (U[t].steps[k] != OP_YIELD && U[t].steps[k] != OP_STATE)
+                    U[t].steps[k] = OP_YIELD;
+            U[t].moves = 1;
+        }
         launch_unit(t);
+        if (any_migrate) {
+            vs_log("apiCall migrate_any U%d", t);
+            int rc = ABT_thread_migrate(U[t].th);
+            if (rc != ABT_SUCCESS) {
+                ABT_thread_state st;
+                ABT_OK(ABT_thread_get_state(U[t].th, &st));
+                VSA_CHECK(st == ABT_THREAD_STATE_TERMINATED,
+                          "ABT_thread_migrate of U%d (state %d) returned %d although another running execution stream exists", t,
+                          (int)st, rc);
+            }
+        }
     }
     ntop = nt;
     /* cancel one top-level ULT now and then (it may already be running / finished: both are legal) */
